@@ -31,7 +31,7 @@ func TestVerifConfDecBounded(t *testing.T) {
 	// dashboard switches
 	for _, la := range []string{"", "true", "false"} {
 		for _, da := range []string{"", "true", "false"} {
-			for _, pw := range []string{"", "s3cret"} {
+			for _, pw := range []string{"", "s3cret", "correct$horseQZX", "pa$$word", "Tr0ub4dor$3xyz", "a${b}c"} {
 				cases++
 				txt := `{"pg_url":"postgres:///x","dashboard":{`
 				sep := ""
